@@ -184,9 +184,13 @@ def insertKnots (o : Obj K) (knots : List K) (dir : ℕ) : PyM (Obj K) := do
       pure (b', Mat.mul Ck bc.2)) (b0, Mat.identity n0)
   pure { o with bases := o.bases.set! dir b, cps := Tensor.applyAxis C o.cps dir }
 
-/-- `reverse(direction)`. -/
+/-- `reverse(direction)`: mirror the knots, flip the control points and — for a periodic
+    direction of continuity `k` — roll them by `k+1` (`np.roll(cps, k+1, direction)`). -/
 def reverse (o : Obj K) (dir : ℕ) : Obj K :=
-  { o with bases := o.bases.set! dir (o.basis dir).reverse, cps := o.cps.flipAxis dir }
+  let b := o.basis dir
+  let flipped := o.cps.flipAxis dir
+  { o with bases := o.bases.set! dir b.reverse,
+           cps := if b.periodic > -1 then flipped.rollAxisPos dir (b.periodic + 1).toNat else flipped }
 
 /-- `swap(dir1, dir2)` (pardim ≥ 2). -/
 def swap (o : Obj K) (d1 d2 : ℕ) : Obj K :=
